@@ -572,7 +572,7 @@ fn ex_gen(ctx: &Ctx, emit: &mut dyn FnMut(String)) {
         }, emit);
     }
     // long bodies: a converted branch whose output distance leaves i16 (the output encoding of
-    // the body is longer than the input's), and deep entry_value nesting
+    // the body is longer than the input's)
     for k in 0..ctx.n(6, 30) {
         case(&mut r, &mut |r, g| {
             // skip over n `const1u 0` (2 bytes each in, 1 byte out: lit0) / `const8u big` (9 in, up to 11 out)
@@ -586,7 +586,8 @@ fn ex_gen(ctx: &Ctx, emit: &mut dyn FnMut(String)) {
             x
         }, emit);
     }
-    for depth in [1usize, 2, 8, 40] {
+    // nesting: 64 levels convert, the 65th nested entry_value is UnsupportedOperation (never a crash)
+    for depth in [1usize, 2, 8, 40, 63, 64, 65, 66, 200, 3000] {
         case(&mut r, &mut |_r, g| {
             let mut x = vec![0x50u8];
             for _ in 0..depth {
